@@ -58,6 +58,18 @@ theorem create_property_refused_unchanged (c : Call) (f : File) (hc : Consistent
     simp only [mapLast_append]
     exact filter_appended f.items c.key _ rfl hc.symm
 
+/-- the general form, for every sound system and every function `pre; try: body except: handler; raise; post`:
+discipline before the `try`, a handler that restores what readers saw, nothing refusable after the section ⇒
+refused = unchanged for readers -/
+theorem guarded_fn_refused_unchanged {A S O G W : Type} [DecidableEq G] (sys : Sys A S O G W) (hs : sys.Sound)
+    (fn : Fn G W) (a : A) (s : S) (hpre : safe sys fn.pre = true)
+    (hrest : ∀ s1 s2 e, run sys a fn.pre s = (s1, none) → run sys a fn.body s1 = (s2, some e) →
+      sys.obs (execAll sys a fn.handler s2) = sys.obs s)
+    (hpost : ∀ s1 s2, run sys a fn.pre s = (s1, none) → run sys a fn.body s1 = (s2, none) →
+      (run sys a fn.post s2).2 = none)
+    (e : Err) (he : (runFn sys a fn s).2 = some e) : sys.obs (runFn sys a fn s).1 = sys.obs s :=
+  fn_refused_unchanged sys hs fn a s hpre hrest hpost e he
+
 /-- an accepted call adds exactly one complete property at the end -/
 theorem create_property_accepted (c : Call) (f : File)
     (h : c.memberOk = true ∧ c.taken = false ∧ c.valuesOk = true ∧ c.nameValid = true ∧ c.dtypeOk = true ∧
